@@ -399,6 +399,55 @@ def run_case(ctx, i, rng):
             ctx.count("passive_notifications", b[2])
             ctx.fingerprint(("diff", a1[0]), b[2] > 50)
             return
+        if i % 8 == 6:
+            # naming-policy changes of POPULATED elements under the mirror: a parentless netlist switched as a whole, and a
+            # subtree built under the other policy added to a parent (every element's .NS entry is element data)
+            from ..universe import Universe
+            sh = Shadow(ctx)
+            try:
+                sdn.namespace_manager.default = "DEFAULT"
+                a = sdn.Netlist("pa")
+                la = a.create_library("la")
+                da = la.create_definition("da")
+                da.create_port("p0", pins=rng.choice([1, 2]))
+                da.create_cable("c0", wires=1)
+                db = la.create_definition("db")
+                db.create_child("u0", reference=da)
+                orphan = sdn.Library("lo")
+                do = orphan.create_definition("do")
+                do.create_port("q0", pins=1)
+                do.create_cable("k0", wires=1)
+                sdn.namespace_manager.default = "EDIF"
+                b = sdn.Netlist("pb")
+                b.create_library("lb")
+                steps = [("netlist['.NS']='EDIF' on a populated netlist", lambda: a.__setitem__(".NS", "EDIF")),
+                         ("add_library of a DEFAULT-built library to an EDIF netlist", lambda: b.add_library(orphan)),
+                         ("definition['.NS']='DEFAULT' on a populated orphan definition", None)]
+                rng.shuffle(steps)
+                for what, fn in steps:
+                    if fn is None:
+                        od = sdn.Definition("od")
+                        od.create_port("z0", pins=1)
+                        od.create_cable("zc", wires=1)
+                        fn = lambda: od.__setitem__(".NS", "DEFAULT")      # noqa: E731
+                        extra = od
+                    else:
+                        extra = None
+                    try:
+                        fn()
+                    except ValueError:
+                        ctx.count("policy_change_refused")
+                    ctx.count("mirror_compares")
+                    ctx.count("policy_changes_under_the_mirror")
+                    u_ = Universe.of(*(x for x in (a, b, orphan, extra) if x is not None))
+                    dd = sh.compare(u_)
+                    if dd:
+                        ctx.violation("mirror-%s@policy-change" % dd[0], "%s after %s" % (dd[1], what))
+                        return
+                ctx.fingerprint(("policy-changes", i), True)
+            finally:
+                sh.deregister_all_listeners()
+            return
         sh = Shadow(ctx)
         try:
             eng = gen_ops.Engine(rng, "listen", policy, fences=FENCES)
